@@ -41,7 +41,7 @@ import json
 import re
 
 from falcon.routing.compiled import CompiledRouter, UnacceptableRouteError
-from falcon.routing.converters import PathConverter
+from falcon.routing.converters import BaseConverter, PathConverter
 
 from models.router_walk import LIT, MULTI, SINGLE, Node, Tree, Unspecified, freeze
 
@@ -85,7 +85,7 @@ ASSUMPTIONS = (
 NAMES = 'uvwxyz'
 SEPS = ('-', '.', '_', '+')
 CONVS = ('int', 'int(2)', 'int(num_digits=3)', 'int(min=10)', 'int(max=50)', 'uuid', 'float',
-         'int(min=5, max=45)', 'int(min=0)', 'int(max=0)', 'float(min=0)', 'float(max=0.0)', 'float(min=2, max=7)')
+         'int(min=5, max=45)', 'int(min=0)', 'int(max=0)', 'float(min=0)', 'float(max=0.0)', 'float(min=2, max=7)', 'hex', 'hex(2)', 'hex(num_digits=3)')
 LITS = ('a', 'b', 'c', '7', 'a-b', 'x.y', '42', '(z)', '$', '', "it's", 'q\\', 't\\t')
 LIT_W = (6, 5, 3, 2, 2, 1, 1, 1, 1, 1)
 LIT_W_OPEN = LIT_W + (1, 1, 1)
@@ -95,6 +95,7 @@ VALS = {
     'int': ('7', '42', '123', '007', '5', '-5', 'zz', '10', '50', '45'),
     'float': ('1.5', '7', 'zz', '-1.5', '0', '-0.0', '8.25'),
     'uuid': (U1, U1.replace('-', ''), 'zz'),
+    'hex': ('ff', '7', 'zz', '1a2', '0f', '42', '123'),
     'path': ('zz',),
 }
 POOL = ('zz', 'a', '7', 'b', '42', '', 'a-b', 'x.y', '1-2-3', '007', 'v7', 'zz.json', '123', '1.5',
@@ -140,9 +141,27 @@ class SafePath(PathConverter):
         return None if 'zz' in rest else rest
 
 
+def _own_int_converter():
+    class IntConverter(BaseConverter):
+        """An application's own converter that happens to be named like the built-in one."""
+
+        def __init__(self, num_digits=None):
+            self._n = num_digits
+
+        def convert(self, value):
+            if not re.match(r'[0-9a-f]+$', value) or (self._n is not None and len(value) != self._n):
+                return None
+            return int(value, 16)
+    return IntConverter
+
+
+HexConverter = _own_int_converter()
+
+
 def new_router():
     r = CompiledRouter()
     r.options.converters['safepath'] = SafePath
+    r.options.converters['hex'] = HexConverter
     return r
 
 
